@@ -37,3 +37,12 @@ CHECKS["C13"] = _c(
     "Trusted: the reference reader (self-tested at start-up) and xmlparser's tokenizer. A well-formed rewrite may be refused; if accepted it must mean the same. Element<->member mapping is by normalised name; unmapped elements get no verdict. Lexical leniency of the underlying quick-xml reader is recorded as known findings by operator.",
     "DESIGN.md 3/C13",
 )
+
+CHECKS["C05"] = _c(
+    "exploration",
+    "runtime monitoring: trace of recording auth provider / access hook / backend behind S3Service::call, judged against a reference SigV4 verifier (validated on the AWS example vectors, cross-checked per request with the aws-sigv4 crate)",
+    "harness (raw request driver)",
+    "Thousands of base requests over hostile-but-legal methods, keys, query multisets, header multisets and bodies are signed by a reference signer written from the AWS documents; each base and ~40 single-component mutants and canonical-equivalent rewrites of it are sent unmodified through the real service, and the event log (provider lookup, access hook with the identity shown to it, backend with region/service) must agree with the reference verdict for the request as sent: valid => authenticated as exactly that key/region/service, invalid => error response and no hook or backend event. Held on the executions observed.",
+    "Trusted: the reference signer/verifier (start-up self-test on the documented vectors: GET/PUT/lifecycle/list, presigned URL, chunk chain, POST policy, five V2 examples) and agreement with aws-sigv4 on base requests. Where the AWS documents leave the verdict open (repeated query names with unsorted values, unsigned x-amz-* header, literal '+', GET with body) the monitor abstains and counts.",
+    "DESIGN.md 3/C05",
+)
